@@ -1,5 +1,6 @@
 from abc import ABCMeta, abstractmethod
 from collections import namedtuple
+from collections.abc import MutableMapping, MutableSet
 from typing import Any, Callable, Dict, List, Type
 
 from spec_classes.errors import FrozenInstanceError
@@ -62,6 +63,7 @@ class CollectionAttrMutator(metaclass=ABCMeta):
     ):
         self.attr_spec = resolve_attr_spec(attr_spec, instance)
         self.instance = instance
+        self._live_collection = None
 
         if collection is MISSING_COLLECTION:
             if inplace and getattr(
@@ -71,9 +73,50 @@ class CollectionAttrMutator(metaclass=ABCMeta):
                     f"Cannot mutate attribute `{self.attr_spec.name}` of frozen spec class `{instance.__class__.__name__}`."
                 )
             collection = getattr(instance, self.attr_spec.name, MISSING)
+            if (
+                inplace
+                and collection is not MISSING
+                and collection is not None
+                and (
+                    self.attr_spec.is_masked
+                    or getattr(
+                        getattr(instance, "__spec_class__", None),
+                        "invalidation_map",
+                        None,
+                    )
+                )
+            ):
+                # The collection held by the instance is about to be edited, and
+                # storing it back may still fail (the attribute may be served
+                # by a property without a setter; invalidating dependent
+                # attributes runs user code). Remember its items so that a
+                # failed call can be undone (see `restore`).
+                self._live_collection = collection
+                self._live_items = (
+                    list(collection.items())
+                    if isinstance(collection, MutableMapping)
+                    else list(collection)
+                )
         if collection is not MISSING and not inplace:
             collection = protect_via_deepcopy(collection)
         self.collection = collection
+
+    def restore(self):
+        """
+        Put back the items that the instance's own collection held before it
+        was edited in place (see `__init__`).
+        """
+        collection = self._live_collection
+        if collection is None:
+            return
+        collection.clear()
+        if isinstance(collection, MutableMapping):
+            collection.update(self._live_items)
+        elif isinstance(collection, MutableSet):
+            for item in self._live_items:
+                collection.add(item)
+        else:
+            collection.extend(self._live_items)
 
     def prepare_item(self, new_item: Any) -> Any:
         """
